@@ -239,6 +239,10 @@ theorem C04_closure_invocations_are_cancellable :
     Skeleton.current.pxCtxIsInvocationCtx = true ∧ Skeleton.current.clInvokeOutsideLock = true ∧
     Skeleton.current.clLockIsMutex = true := by decide
 
+/-- A cancelled closure-carrying call returns through its deferred release. The release function `registerClosure` returns runs DEFERRED on every exit path of a closure-carrying call; it only locks, deletes and unlocks — no wait, channel operation or select (checked against the regenerated skeleton) — and the lock it takes is not held while a closure body runs. -/
+theorem C04_closure_release_never_waits :
+    Skeleton.current.clFreeNeverWaits = true ∧ Skeleton.current.clInvokeOutsideLock = true := by decide
+
 end Panrpc.Ep
 
 #print axioms Panrpc.Ep.C04_closure_invocations_are_cancellable
@@ -256,3 +260,4 @@ end Panrpc.Ep
 #print axioms Panrpc.Ep.C04_receive_fails_only_when_closed
 #print axioms Panrpc.Ep.C04_refusing_a_done_context_ends_the_link
 #print axioms Panrpc.Ep.C04_done_context_call_registers
+#print axioms Panrpc.Ep.C04_closure_release_never_waits
